@@ -75,4 +75,26 @@ theorem C03_text_before_first_header_rejected (env : Env) (c : Char) (r : Str)
   unfold parse
   simp [parseUnit, h1, h2, h3]
 
+/-! ### a backslash that continues into nothing -/
+
+/-- the last line of a value ends in a backslash and the next line is empty: the value ends there (it gains the one blank of the
+    continuation, which the final trim drops again) and the empty line is left for the section loop — what follows is an entry of its own -/
+theorem C03_continuation_into_empty_line (f : Str) (h : bsOK f = true) (k : Nat) (rest : Str) :
+    parseValue (f ++ '\\' :: (List.replicate k ' ' ++ '\n' :: '\n' :: rest)) = (trimEnd (f ++ [' ']), '\n' :: rest) := by
+  unfold parseValue
+  rw [pv_frag f h [] _ (by intro c hc; simp at hc; exact Or.inl hc.symm), pv_continuation]
+  simp [pv]
+
+/-- … also when comment lines stand between the backslash and the empty line -/
+theorem C03_continuation_comment_then_empty_line (f : Str) (h : bsOK f = true) (k : Nat) (m : Char) (hm : m = '#' ∨ m = ';')
+    (text : Str) (ht : ∀ c ∈ text, c ≠ '\n') (rest : Str) :
+    parseValue (f ++ '\\' :: (List.replicate k ' ' ++ '\n' :: (m :: text ++ '\n' :: '\n' :: rest)))
+      = (trimEnd (f ++ [' ']), '\n' :: rest) := by
+  unfold parseValue
+  rw [pv_frag f h [] _ (by intro c hc; simp at hc; exact Or.inl hc.symm), pv_continuation, pv_comment m hm text ht]
+  simp [pv]
+
+example : parseValue ("a b \\\n\nOther=1\n".toList) = ("a b".toList, "\nOther=1\n".toList) := by
+  simp [parseValue, pv, trimEnd, isWs]
+
 end Parse
